@@ -1,6 +1,8 @@
 /-
-C11: the program-level hypothesis `refsResolve` follows from two conditions on the input model alone:
-no key is shared by two different function objects, and no use repeats an argument.  Core Lean only.
+C11: `_free_name` hands out names that are not taken (its loop never runs out of fuel), so the definitions generated
+for initial assignments and computed coefficients are never confused, for every model; and the program-level
+hypothesis `refsResolve` follows from two conditions on the input model alone: no `__name__` is shared by two
+different derived / reaction function objects, and no use repeats an argument.  Core Lean only.
 -/
 import MxlVerif.Lemmas.C11
 namespace Mxl.C11
@@ -18,10 +20,6 @@ theorem lookup_some_of_keys {β} : ∀ {m : List (String × β)} {a : String},
       obtain ⟨v, hv⟩ := ih (h.resolve_left hak)
       have : (a == k) = false := by simpa using hak
       exact ⟨v, by simp [List.lookup_cons, this, hv]⟩
-
-/-- every definition in the dict was put there by an entry of the model with that key -/
-def FromEntries (c : NContent) (fs : Fns) : Prop :=
-  ∀ kd ∈ fs, (kd.1, (⟨kd.2.src, kd.2.params⟩ : Use)) ∈ entries c
 
 def keysOf (fs : Fns) : List String := fs.map (·.1)
 
@@ -43,306 +41,514 @@ theorem mem_keys_put (fs : Fns) (key : String) (f : SymFn) (k : String) :
       · rintro (h | h | h) <;> simp_all
       · rintro (h | h | h) <;> simp_all
 
-theorem FromEntries.put {c : NContent} {fs : Fns} (h : FromEntries c fs) {key : String} {f : SymFn}
-    (hf : (key, (⟨f.src, f.args⟩ : Use)) ∈ entries c) : FromEntries c (fs.put key f) := by
-  intro kd hkd
-  rcases mem_omInsert _ _ _ _ hkd with h1 | h1
-  · exact h _ h1
-  · subst h1; exact hf
-
-/-- what one generator step guarantees: old keys stay, emitted references have their key in the dict, and the
-    dict keeps coming from entries -/
-structure StepOk (c : NContent) (fs fs' : Fns) (refs : List Ref) : Prop where
-  mono : ∀ k ∈ keysOf fs, k ∈ keysOf fs'
-  present : ∀ r ∈ refs, r.key ∈ keysOf fs'
-  from_entries : FromEntries c fs → FromEntries c fs'
-  refs_in : ∀ r ∈ refs, (r.key, (⟨r.src, r.args⟩ : Use)) ∈ entries c
-
-def SymValIn (c : NContent) (key : String → String) : SymVal → Prop
-  | .num _ => True
-  | .fn f => (key f.fnName, (⟨f.src, f.args⟩ : Use)) ∈ entries c
-
-theorem genInits_step {c : NContent} (taken : List String) (mk : Name → BVal → Call)
-    (hmk : ∀ k b, (mk k b).refs = b.refs) : ∀ (l : List (Name × SymVal)) (fs : Fns),
-    (∀ kv ∈ l, SymValIn c (fun n => freeName taken ("init_" ++ n)) kv.2) →
-    StepOk c fs (genInits taken mk l fs).1 ((genInits taken mk l fs).2.flatMap Call.refs) := by
-  intro l; induction l with
-  | nil => intro fs _; exact ⟨fun k h => h, fun r h => (by cases h), fun h => h, fun r h => (by cases h)⟩
+theorem lookup_put (fs : Fns) (key : String) (f : SymFn) (a : String) :
+    (fs.put key f).lookup a
+      = if a = key then some { params := f.args, body := f.expr, src := f.src } else fs.lookup a := by
+  unfold Fns.put
+  induction fs with
+  | nil =>
+    by_cases h : a = key
+    · subst h; simp [omInsert, List.lookup_cons]
+    · have : (a == key) = false := by simpa using h
+      simp [omInsert, List.lookup_cons, this, h]
   | cons kv rest ih =>
-    intro fs hl
+    obtain ⟨k', v'⟩ := kv
+    simp only [omInsert]
+    by_cases hk : k' = key
+    · subst hk
+      by_cases h : a = k'
+      · subst h; simp [List.lookup_cons]
+      · have : (a == k') = false := by simpa using h
+        simp [List.lookup_cons, this, h]
+    · have hk' : (k' == key) = false := by simpa using hk
+      simp only [hk', Bool.false_eq_true, if_false]
+      by_cases h : a = k'
+      · subst h; simp [List.lookup_cons, hk]
+      · have : (a == k') = false := by simpa using h
+        simp only [List.lookup_cons, this, ih]
+
+theorem refOk_put (fs : Fns) (key : String) (f : SymFn) (r : Ref) :
+    refOk (fs.put key f) r = if r.key = key then f.src == r.src else refOk fs r := by
+  unfold refOk
+  rw [lookup_put]
+  by_cases h : r.key = key <;> simp [h]
+
+theorem refOk_key_mem {fs : Fns} {r : Ref} (h : refOk fs r = true) : r.key ∈ keysOf fs := by
+  unfold refOk at h
+  cases hl : fs.lookup r.key with
+  | none => simp [hl] at h
+  | some d =>
+    have := lookup_some_mem _ _ _ hl
+    exact List.mem_map.mpr ⟨_, this, rfl⟩
+
+/-! ### `_free_name` returns a name that is not taken: the loop's fuel is never used up -/
+
+theorem filter_length_lt {α} (p q : α → Bool) : ∀ (l : List α), (∀ x, p x = true → q x = true) →
+    (∃ x ∈ l, q x = true ∧ p x = false) → (l.filter p).length < (l.filter q).length := by
+  intro l; induction l with
+  | nil => intro _ h; obtain ⟨x, hx, _⟩ := h; cases hx
+  | cons a rest ih =>
+    intro hpq h
+    have hle : (rest.filter p).length ≤ (rest.filter q).length := by
+      clear ih h
+      induction rest with
+      | nil => simp
+      | cons b rest ih2 =>
+        simp only [List.filter_cons]
+        cases hp : p b with
+        | true => simp [hpq b hp]; exact ih2
+        | false =>
+          cases hq : q b with
+          | true => simp; omega
+          | false => simpa using ih2
+    obtain ⟨x, hx, hqx, hpx⟩ := h
+    simp only [List.filter_cons]
+    cases List.mem_cons.mp hx with
+    | inl h1 =>
+      subst h1
+      simp [hqx, hpx]; omega
+    | inr h1 =>
+      have := ih hpq ⟨x, h1, hqx, hpx⟩
+      cases hp : p a with
+      | true => simp [hpq a hp]; exact this
+      | false =>
+        cases hq : q a with
+        | true => simp; omega
+        | false => simpa using this
+
+/-- number of taken names at least as long as `name` -/
+def longer (taken : List String) (name : String) : Nat :=
+  (taken.filter fun t => decide (name.length ≤ t.length)).length
+
+theorem freeNameLoop_not_mem (taken : List String) : ∀ (fuel : Nat) (name : String),
+    longer taken name ≤ fuel → freeNameLoop taken fuel name ∉ taken := by
+  intro fuel; induction fuel with
+  | zero =>
+    intro name h hm
+    simp only [freeNameLoop] at hm
+    have : 0 < longer taken name := by
+      unfold longer
+      apply List.length_pos_of_mem (a := name)
+      simp [List.mem_filter, hm]
+    omega
+  | succ fuel ih =>
+    intro name h
+    simp only [freeNameLoop]
+    by_cases hc : taken.contains name = true
+    · simp only [hc, if_true]
+      apply ih
+      have hm : name ∈ taken := by simpa using hc
+      have : longer taken (name ++ "_") < longer taken name := by
+        unfold longer
+        apply filter_length_lt
+        · intro x hx
+          have hl : (name ++ "_").length = name.length + 1 := by rw [String.length_append]; rfl
+          simp only [decide_eq_true_eq] at hx ⊢
+          omega
+        · refine ⟨name, hm, by simp, ?_⟩
+          have hl : (name ++ "_").length = name.length + 1 := by rw [String.length_append]; rfl
+          simp only [decide_eq_false_iff_not]
+          omega
+      omega
+    · have hc' : taken.contains name = false := by simpa using hc
+      simp only [hc', Bool.false_eq_true, if_false]
+      simpa using hc'
+
+/-- **`_free_name` is fresh** -/
+theorem freeName_not_mem (taken : List String) (name : String) : freeName taken name ∉ taken := by
+  apply freeNameLoop_not_mem
+  unfold longer
+  have := List.length_filter_le (fun t => decide (name.length ≤ t.length)) taken
+  omega
+
+/-! ### what the generator keeps true of (`taken`, `functions`, the references emitted so far) -/
+
+structure Inv (c : NContent) (st : GenSt) (rs : List Ref) : Prop where
+  base : ∀ k ∈ takenOf (symOf c), k ∈ st.1
+  keys : ∀ k ∈ keysOf st.2, k ∈ st.1
+  defsComp : ∀ kd ∈ st.2, kd.1 ∈ takenOf (symOf c) → (kd.1, (⟨kd.2.src, kd.2.params⟩ : Use)) ∈ compEntries c
+  present : ∀ r ∈ rs, r.key ∈ keysOf st.2
+  refsComp : ∀ r ∈ rs, r.key ∈ takenOf (symOf c) → (r.key, (⟨r.src, r.args⟩ : Use)) ∈ compEntries c
+  genOk : ∀ r ∈ rs, r.key ∉ takenOf (symOf c) → refOk st.2 r = true
+  allOk : keysInjective c = true → ∀ r ∈ rs, refOk st.2 r = true
+
+theorem Inv.mono {c : NContent} {st : GenSt} {rs rs' : List Ref} (h : Inv c st rs) (hs : ∀ r ∈ rs', r ∈ rs) :
+    Inv c st rs' :=
+  ⟨h.base, h.keys, h.defsComp, fun r hr => h.present r (hs r hr), fun r hr => h.refsComp r (hs r hr),
+   fun r hr => h.genOk r (hs r hr), fun hk r hr => h.allOk hk r (hs r hr)⟩
+
+/-- a step that files a definition under a generated key -/
+theorem Inv.gen {c : NContent} {st : GenSt} {rs : List Ref} (h : Inv c st rs) (name : String) (f : SymFn) :
+    Inv c (freeName st.1 name :: st.1, st.2.put (freeName st.1 name) f)
+      ({ key := freeName st.1 name, args := f.args, src := f.src } :: rs) := by
+  have hfresh := freeName_not_mem st.1 name
+  have hnk : ∀ r : Ref, refOk st.2 r = true → r.key ≠ freeName st.1 name := by
+    intro r hr heq
+    exact hfresh (heq ▸ h.keys _ (refOk_key_mem hr))
+  refine ⟨fun k hk => List.mem_cons_of_mem _ (h.base k hk), ?_, ?_, ?_, ?_, ?_, ?_⟩
+  · intro k hk
+    rcases (mem_keys_put _ _ _ _).mp hk with h1 | h1
+    · subst h1; exact List.mem_cons_self
+    · exact List.mem_cons_of_mem _ (h.keys k h1)
+  · intro kd hkd hT
+    rcases mem_omInsert _ _ _ _ hkd with h1 | h1
+    · exact h.defsComp kd h1 hT
+    · subst h1; exact absurd (h.base _ hT) hfresh
+  · intro r hr
+    cases List.mem_cons.mp hr with
+    | inl h1 => subst h1; exact (mem_keys_put _ _ _ _).mpr (Or.inl rfl)
+    | inr h1 => exact (mem_keys_put _ _ _ _).mpr (Or.inr (h.present r h1))
+  · intro r hr hT
+    cases List.mem_cons.mp hr with
+    | inl h1 => subst h1; exact absurd (h.base _ hT) hfresh
+    | inr h1 => exact h.refsComp r h1 hT
+  · intro r hr hT
+    cases List.mem_cons.mp hr with
+    | inl h1 => subst h1; simp [refOk_put]
+    | inr h1 =>
+      have := h.genOk r h1 hT
+      rw [refOk_put]; simp [hnk r this, this]
+  · intro hk r hr
+    cases List.mem_cons.mp hr with
+    | inl h1 => subst h1; simp [refOk_put]
+    | inr h1 =>
+      have := h.allOk hk r h1
+      rw [refOk_put]; simp [hnk r this, this]
+
+/-- a step that files the definition of a derived quantity's / reaction's function under its `__name__` -/
+theorem Inv.comp {c : NContent} {st : GenSt} {rs : List Ref} (h : Inv c st rs) (f : SymFn)
+    (hT : f.fnName ∈ takenOf (symOf c)) (hf : (f.fnName, (⟨f.src, f.args⟩ : Use)) ∈ compEntries c) :
+    Inv c (st.1, st.2.put f.fnName f) ({ key := f.fnName, args := f.args, src := f.src } :: rs) := by
+  refine ⟨h.base, ?_, ?_, ?_, ?_, ?_, ?_⟩
+  · intro k hk
+    rcases (mem_keys_put _ _ _ _).mp hk with h1 | h1
+    · subst h1; exact h.base _ hT
+    · exact h.keys k h1
+  · intro kd hkd hkT
+    rcases mem_omInsert _ _ _ _ hkd with h1 | h1
+    · exact h.defsComp kd h1 hkT
+    · subst h1; exact hf
+  · intro r hr
+    cases List.mem_cons.mp hr with
+    | inl h1 => subst h1; exact (mem_keys_put _ _ _ _).mpr (Or.inl rfl)
+    | inr h1 => exact (mem_keys_put _ _ _ _).mpr (Or.inr (h.present r h1))
+  · intro r hr hrT
+    cases List.mem_cons.mp hr with
+    | inl h1 => subst h1; exact hf
+    | inr h1 => exact h.refsComp r h1 hrT
+  · intro r hr hrT
+    cases List.mem_cons.mp hr with
+    | inl h1 => subst h1; exact absurd hT hrT
+    | inr h1 =>
+      have hne : r.key ≠ f.fnName := fun heq => hrT (heq ▸ hT)
+      rw [refOk_put]; simp [hne, h.genOk r h1 hrT]
+  · intro hk r hr
+    cases List.mem_cons.mp hr with
+    | inl h1 => subst h1; simp [refOk_put]
+    | inr h1 =>
+      rw [refOk_put]
+      by_cases heq : r.key = f.fnName
+      · have hin := h.refsComp r h1 (heq ▸ hT)
+        rw [heq] at hin
+        have := List.all_eq_true.mp (List.all_eq_true.mp hk _ hf) _ hin
+        simp only [bne_self_eq_false, Bool.false_or, beq_iff_eq] at this
+        simp [heq, this]
+      · simp [heq, h.allOk hk r h1]
+
+theorem genInits_inv {c : NContent} (mk : Name → BVal → Call) (hmk : ∀ k b, (mk k b).refs = b.refs) :
+    ∀ (l : List (Name × SymVal)) (st : GenSt) (rs : List Ref), Inv c st rs →
+    Inv c (genInits mk l st).1 ((genInits mk l st).2.flatMap Call.refs ++ rs) := by
+  intro l; induction l with
+  | nil => intro st rs h; exact h
+  | cons kv rest ih =>
+    intro st rs h
     obtain ⟨k, v⟩ := kv
-    have hrest : ∀ kv ∈ rest, SymValIn c (fun n => freeName taken ("init_" ++ n)) kv.2 :=
-      fun kv hkv => hl kv (List.mem_cons_of_mem _ hkv)
     cases v with
     | num q =>
-      have s := ih fs hrest
       simp only [genInits, genInit, List.flatMap_cons, hmk, BVal.refs, List.nil_append]
-      exact s
+      exact ih st rs h
     | fn f =>
-      have hf : (freeName taken ("init_" ++ f.fnName), (⟨f.src, f.args⟩ : Use)) ∈ entries c :=
-        hl (k, .fn f) List.mem_cons_self
-      have s := ih (fs.put (freeName taken ("init_" ++ f.fnName)) f) hrest
-      simp only [genInits, genInit, List.flatMap_cons, hmk, BVal.refs, List.cons_append, List.nil_append]
-      refine ⟨fun k' hk' => s.mono k' ((mem_keys_put _ _ _ _).mpr (Or.inr hk')), ?_, fun h => s.from_entries (h.put hf), ?_⟩
-      · intro r hr
-        cases List.mem_cons.mp hr with
-        | inl h1 => subst h1; exact s.mono _ ((mem_keys_put _ _ _ _).mpr (Or.inl rfl))
-        | inr h1 => exact s.present r h1
-      · intro r hr
-        cases List.mem_cons.mp hr with
-        | inl h1 => subst h1; exact hf
-        | inr h1 => exact s.refs_in r h1
+      have := ih _ _ (h.gen ("init_" ++ f.fnName) f)
+      simp only [genInits, genInit, List.flatMap_cons, hmk, BVal.refs]
+      refine this.mono ?_
+      intro r hr
+      simp only [List.mem_append, List.mem_cons, List.mem_singleton, List.not_mem_nil, or_false] at hr ⊢
+      rcases hr with (h1 | h1) | h1
+      · exact Or.inr (Or.inl h1)
+      · exact Or.inl h1
+      · exact Or.inr (Or.inr h1)
 
-theorem genDerived_step {c : NContent} : ∀ (l : List (Name × SymFn)) (fs : Fns),
-    (∀ kv ∈ l, (kv.2.fnName, (⟨kv.2.src, kv.2.args⟩ : Use)) ∈ entries c) →
-    StepOk c fs (genDerived l fs).1 ((genDerived l fs).2.flatMap Call.refs) := by
+theorem genDerived_inv {c : NContent} : ∀ (l : List (Name × SymFn)) (st : GenSt) (rs : List Ref),
+    (∀ kv ∈ l, kv.2.fnName ∈ takenOf (symOf c) ∧ (kv.2.fnName, (⟨kv.2.src, kv.2.args⟩ : Use)) ∈ compEntries c) →
+    Inv c st rs → Inv c (genDerived l st).1 ((genDerived l st).2.flatMap Call.refs ++ rs) := by
   intro l; induction l with
-  | nil => intro fs _; exact ⟨fun k h => h, fun r h => (by cases h), fun h => h, fun r h => (by cases h)⟩
+  | nil => intro st rs _ h; exact h
   | cons kv rest ih =>
-    intro fs hl
+    intro st rs hl h
     obtain ⟨k, f⟩ := kv
     have hf := hl (k, f) List.mem_cons_self
-    have s := ih (fs.put f.fnName f) (fun kv hkv => hl kv (List.mem_cons_of_mem _ hkv))
-    simp only [genDerived, List.flatMap_cons, Call.refs, List.cons_append, List.nil_append]
-    refine ⟨fun k' hk' => s.mono k' ((mem_keys_put _ _ _ _).mpr (Or.inr hk')), ?_, fun h => s.from_entries (h.put hf), ?_⟩
-    · intro r hr
-      cases List.mem_cons.mp hr with
-      | inl h1 => subst h1; exact s.mono _ ((mem_keys_put _ _ _ _).mpr (Or.inl rfl))
-      | inr h1 => exact s.present r h1
-    · intro r hr
-      cases List.mem_cons.mp hr with
-      | inl h1 => subst h1; exact hf
-      | inr h1 => exact s.refs_in r h1
+    have := ih _ _ (fun kv hkv => hl kv (List.mem_cons_of_mem _ hkv)) (h.comp f hf.1 hf.2)
+    simp only [genDerived, List.flatMap_cons, Call.refs]
+    refine this.mono ?_
+    intro r hr
+    simp only [List.mem_append, List.mem_cons, List.mem_singleton, List.not_mem_nil, or_false] at hr ⊢
+    rcases hr with (h1 | h1) | h1
+    · exact Or.inr (Or.inl h1)
+    · exact Or.inl h1
+    · exact Or.inr (Or.inr h1)
 
-theorem genStoich_step {c : NContent} (taken : List String) (rxn : Name) : ∀ (l : List (Name × SymVal)) (fs : Fns),
-    (∀ kv ∈ l, SymValIn c (fun n => freeName taken (rxn ++ "_stoich_" ++ n)) kv.2) →
-    StepOk c fs (genStoich taken rxn l fs).1 ((genStoich taken rxn l fs).2.flatMap fun vc => vc.2.refs) := by
+theorem genStoich_inv {c : NContent} (rxn : Name) : ∀ (l : List (Name × SymVal)) (st : GenSt) (rs : List Ref),
+    Inv c st rs →
+    Inv c (genStoich rxn l st).1 ((genStoich rxn l st).2.flatMap (fun vc => vc.2.refs) ++ rs) := by
   intro l; induction l with
-  | nil => intro fs _; exact ⟨fun k h => h, fun r h => (by cases h), fun h => h, fun r h => (by cases h)⟩
+  | nil => intro st rs h; exact h
   | cons kv rest ih =>
-    intro fs hl
+    intro st rs h
     obtain ⟨k, v⟩ := kv
-    have hrest : ∀ kv ∈ rest, SymValIn c (fun n => freeName taken (rxn ++ "_stoich_" ++ n)) kv.2 :=
-      fun kv hkv => hl kv (List.mem_cons_of_mem _ hkv)
     cases v with
     | num q =>
-      have s := ih fs hrest
       simp only [genStoich, List.flatMap_cons, BVal.refs, List.nil_append]
-      exact s
+      exact ih st rs h
     | fn f =>
-      have hf : (freeName taken (rxn ++ "_stoich_" ++ f.fnName), (⟨f.src, f.args⟩ : Use)) ∈ entries c :=
-        hl (k, .fn f) List.mem_cons_self
-      have s := ih (fs.put (freeName taken (rxn ++ "_stoich_" ++ f.fnName)) f) hrest
-      simp only [genStoich, List.flatMap_cons, BVal.refs, List.cons_append, List.nil_append]
-      refine ⟨fun k' hk' => s.mono k' ((mem_keys_put _ _ _ _).mpr (Or.inr hk')), ?_, fun h => s.from_entries (h.put hf), ?_⟩
-      · intro r hr
-        cases List.mem_cons.mp hr with
-        | inl h1 => subst h1; exact s.mono _ ((mem_keys_put _ _ _ _).mpr (Or.inl rfl))
-        | inr h1 => exact s.present r h1
-      · intro r hr
-        cases List.mem_cons.mp hr with
-        | inl h1 => subst h1; exact hf
-        | inr h1 => exact s.refs_in r h1
+      have := ih _ _ (h.gen (rxn ++ "_stoich_" ++ f.fnName) f)
+      simp only [genStoich, List.flatMap_cons, BVal.refs]
+      refine this.mono ?_
+      intro r hr
+      simp only [List.mem_append, List.mem_cons, List.mem_singleton, List.not_mem_nil, or_false] at hr ⊢
+      rcases hr with (h1 | h1) | h1
+      · exact Or.inr (Or.inl h1)
+      · exact Or.inl h1
+      · exact Or.inr (Or.inr h1)
 
-theorem genReactions_step {c : NContent} (taken : List String) : ∀ (l : List (Name × SymRxn)) (fs : Fns),
-    (∀ kv ∈ l, (kv.2.fn.fnName, (⟨kv.2.fn.src, kv.2.fn.args⟩ : Use)) ∈ entries c
-       ∧ ∀ vs ∈ kv.2.stoich, SymValIn c (fun n => freeName taken (kv.1 ++ "_stoich_" ++ n)) vs.2) →
-    StepOk c fs (genReactions taken l fs).1 ((genReactions taken l fs).2.flatMap Call.refs) := by
+theorem genReactions_inv {c : NContent} : ∀ (l : List (Name × SymRxn)) (st : GenSt) (rs : List Ref),
+    (∀ kv ∈ l, kv.2.fn.fnName ∈ takenOf (symOf c)
+      ∧ (kv.2.fn.fnName, (⟨kv.2.fn.src, kv.2.fn.args⟩ : Use)) ∈ compEntries c) →
+    Inv c st rs → Inv c (genReactions l st).1 ((genReactions l st).2.flatMap Call.refs ++ rs) := by
   intro l; induction l with
-  | nil => intro fs _; exact ⟨fun k h => h, fun r h => (by cases h), fun h => h, fun r h => (by cases h)⟩
+  | nil => intro st rs _ h; exact h
   | cons kv rest ih =>
-    intro fs hl
+    intro st rs hl h
     obtain ⟨k, r⟩ := kv
-    obtain ⟨hf, hst⟩ := hl (k, r) List.mem_cons_self
-    have s1 := genStoich_step (c := c) taken k r.stoich (fs.put r.fn.fnName r.fn) hst
-    have s2 := ih (genStoich taken k r.stoich (fs.put r.fn.fnName r.fn)).1
-      (fun kv hkv => hl kv (List.mem_cons_of_mem _ hkv))
-    simp only [genReactions, List.flatMap_cons, Call.refs, List.cons_append]
-    refine ⟨fun k' hk' => s2.mono k' (s1.mono k' ((mem_keys_put _ _ _ _).mpr (Or.inr hk'))), ?_,
-      fun h => s2.from_entries (s1.from_entries (h.put hf)), ?_⟩
-    · intro x hx
-      cases List.mem_cons.mp hx with
-      | inl h1 => subst h1; exact s2.mono _ (s1.mono _ ((mem_keys_put _ _ _ _).mpr (Or.inl rfl)))
-      | inr h1 =>
-        cases List.mem_append.mp h1 with
-        | inl h2 => exact s2.mono _ (s1.present x h2)
-        | inr h2 => exact s2.present x h2
-    · intro x hx
-      cases List.mem_cons.mp hx with
-      | inl h1 => subst h1; exact hf
-      | inr h1 =>
-        cases List.mem_append.mp h1 with
-        | inl h2 => exact s1.refs_in x h2
-        | inr h2 => exact s2.refs_in x h2
+    have hf := hl (k, r) List.mem_cons_self
+    have h1 := genStoich_inv k r.stoich _ _ (h.comp r.fn hf.1 hf.2)
+    have := ih _ _ (fun kv hkv => hl kv (List.mem_cons_of_mem _ hkv)) h1
+    simp only [genReactions, List.flatMap_cons, Call.refs]
+    refine this.mono ?_
+    intro x hx
+    simp only [List.mem_append, List.mem_cons] at hx ⊢
+    rcases hx with ((h2 | h2) | h2) | h2
+    · exact Or.inr (Or.inr (Or.inl h2))
+    · exact Or.inr (Or.inl h2)
+    · exact Or.inl h2
+    · exact Or.inr (Or.inr (Or.inr h2))
 
-/-! ### the entries of the symbolic representation are the entries of the model -/
+/-! ### the component functions of the symbolic representation are the component entries of the model -/
 
 theorem takenOf_symOf (c : NContent) :
     takenOf (symOf c) = c.derived.map (fun kv => (c.pyfn kv.2.fid).name)
       ++ c.rxns.map (fun kv => (c.pyfn kv.2.rate.fid).name) := by
   simp [takenOf, symOf, symFnOf, List.map_map, Function.comp_def]
 
-theorem entries_var {c : NContent} {k : Name} {u : Use} (h : (k, NVal.ia u) ∈ c.vars) :
-    (freeName (takenOf (symOf c)) ("init_" ++ (c.pyfn u.fid).name), u) ∈ entries c := by
+theorem compEntries_keys (c : NContent) : (compEntries c).map (·.1) = takenOf (symOf c) := by
   rw [takenOf_symOf]
-  simp only [entries, List.mem_append, List.mem_filterMap]
-  exact Or.inl (Or.inl (Or.inl ⟨_, h, rfl⟩))
+  simp [compEntries, List.map_map, Function.comp_def]
 
-theorem entries_par {c : NContent} {k : Name} {u : Use} (h : (k, NVal.ia u) ∈ c.pars) :
-    (freeName (takenOf (symOf c)) ("init_" ++ (c.pyfn u.fid).name), u) ∈ entries c := by
-  rw [takenOf_symOf]
-  simp only [entries, List.mem_append, List.mem_filterMap]
-  exact Or.inl (Or.inl (Or.inr ⟨_, h, rfl⟩))
-
-theorem entries_derived {c : NContent} {k : Name} {u : Use} (h : (k, u) ∈ c.derived) :
-    ((c.pyfn u.fid).name, u) ∈ entries c := by
-  simp only [entries, List.mem_append, List.mem_map]
-  exact Or.inl (Or.inr ⟨_, h, rfl⟩)
-
-theorem entries_rate {c : NContent} {k : Name} {r : NRxn} (h : (k, r) ∈ c.rxns) :
-    ((c.pyfn r.rate.fid).name, r.rate) ∈ entries c := by
-  simp only [entries, List.mem_append, List.mem_flatMap]
-  exact Or.inr ⟨_, h, List.mem_cons_self⟩
-
-theorem entries_coef {c : NContent} {k v : Name} {r : NRxn} {u : Use} (h : (k, r) ∈ c.rxns)
-    (hv : (v, NCoef.dyn u) ∈ r.stoich) :
-    (freeName (takenOf (symOf c)) (k ++ "_stoich_" ++ (c.pyfn u.fid).name), u) ∈ entries c := by
-  rw [takenOf_symOf]
-  simp only [entries, List.mem_append, List.mem_flatMap]
-  refine Or.inr ⟨_, h, List.mem_cons_of_mem _ ?_⟩
-  simp only [List.mem_filterMap]
-  exact ⟨_, hv, rfl⟩
-
-/-- **input-level sufficient condition** for the hypothesis of the round-trip theorem -/
-theorem input_facts (c : NContent) (hk : keysInjective c = true) :
-    (argsNoDup c = true → ((genProgram (symOf c)).defs.all fun kd => !hasDup kd.2.params) = true)
-    ∧ (genProgram (symOf c)).srcOk = true := by
-  -- the four generator steps on the symbolic representation of c
-  have hV : ∀ kv ∈ (symOf c).variables,
-      SymValIn c (fun n => freeName (takenOf (symOf c)) ("init_" ++ n)) kv.2 := by
-    intro kv h
-    simp only [symOf, List.mem_map] at h
-    obtain ⟨⟨k, v⟩, hm, rfl⟩ := h
-    cases v with
-    | plain q => trivial
-    | ia u => exact entries_var hm
-  have hP : ∀ kv ∈ (symOf c).parameters,
-      SymValIn c (fun n => freeName (takenOf (symOf c)) ("init_" ++ n)) kv.2 := by
-    intro kv h
-    simp only [symOf, List.mem_map] at h
-    obtain ⟨⟨k, v⟩, hm, rfl⟩ := h
-    cases v with
-    | plain q => trivial
-    | ia u => exact entries_par hm
-  have hD : ∀ kv ∈ (symOf c).derived, (kv.2.fnName, (⟨kv.2.src, kv.2.args⟩ : Use)) ∈ entries c := by
-    intro kv h
+theorem symOf_comp (c : NContent) :
+    (∀ kv ∈ (symOf c).derived, kv.2.fnName ∈ takenOf (symOf c)
+      ∧ (kv.2.fnName, (⟨kv.2.src, kv.2.args⟩ : Use)) ∈ compEntries c)
+    ∧ (∀ kv ∈ (symOf c).reactions, kv.2.fn.fnName ∈ takenOf (symOf c)
+      ∧ (kv.2.fn.fnName, (⟨kv.2.fn.src, kv.2.fn.args⟩ : Use)) ∈ compEntries c) := by
+  constructor
+  · intro kv h
     simp only [symOf, List.mem_map] at h
     obtain ⟨⟨k, u⟩, hm, rfl⟩ := h
-    exact entries_derived hm
-  have hR : ∀ kv ∈ (symOf c).reactions, (kv.2.fn.fnName, (⟨kv.2.fn.src, kv.2.fn.args⟩ : Use)) ∈ entries c
-      ∧ ∀ vs ∈ kv.2.stoich, SymValIn c (fun n => freeName (takenOf (symOf c)) (kv.1 ++ "_stoich_" ++ n)) vs.2 := by
-    intro kv h
+    have hin : ((c.pyfn u.fid).name, u) ∈ compEntries c := by
+      simp only [compEntries, List.mem_append, List.mem_map]
+      exact Or.inl ⟨_, hm, rfl⟩
+    refine ⟨?_, hin⟩
+    rw [← compEntries_keys]
+    exact List.mem_map.mpr ⟨_, hin, rfl⟩
+  · intro kv h
     simp only [symOf, List.mem_map] at h
     obtain ⟨⟨k, r⟩, hm, rfl⟩ := h
-    refine ⟨entries_rate hm, ?_⟩
-    intro vs hvs
-    simp only [List.mem_map] at hvs
-    obtain ⟨⟨v, cf⟩, hm2, rfl⟩ := hvs
-    cases cf with
-    | num q => trivial
-    | dyn u => exact entries_coef hm hm2
-  have s1 := genInits_step (c := c) (takenOf (symOf c)) Call.addVariable (fun _ _ => rfl) (symOf c).variables [] hV
-  have s2 := genInits_step (c := c) (takenOf (symOf c)) Call.addParameter (fun _ _ => rfl) (symOf c).parameters
-    (genInits (takenOf (symOf c)) Call.addVariable (symOf c).variables []).1 hP
-  have s3 := genDerived_step (c := c) (symOf c).derived
-    (genInits (takenOf (symOf c)) Call.addParameter (symOf c).parameters
-      (genInits (takenOf (symOf c)) Call.addVariable (symOf c).variables []).1).1 hD
-  have s4 := genReactions_step (c := c) (takenOf (symOf c)) (symOf c).reactions
-    (genDerived (symOf c).derived
-      (genInits (takenOf (symOf c)) Call.addParameter (symOf c).parameters
-        (genInits (takenOf (symOf c)) Call.addVariable (symOf c).variables []).1).1).1 hR
-  have hfrom : FromEntries c (genProgram (symOf c)).defs :=
-    s4.from_entries (s3.from_entries (s2.from_entries (s1.from_entries (by intro kd h; cases h))))
-  have hinj : ∀ e1 ∈ entries c, ∀ e2 ∈ entries c, e1.1 = e2.1 → e1.2.fid = e2.2.fid := by
-    intro e1 h1 e2 h2 heq
-    have := List.all_eq_true.mp (List.all_eq_true.mp hk e1 h1) e2 h2
-    simpa [heq] using this
+    have hin : ((c.pyfn r.rate.fid).name, r.rate) ∈ compEntries c := by
+      simp only [compEntries, List.mem_append, List.mem_map]
+      exact Or.inr ⟨_, hm, rfl⟩
+    refine ⟨?_, hin⟩
+    rw [← compEntries_keys]
+    exact List.mem_map.mpr ⟨_, hin, rfl⟩
+
+/-- the invariant holds of the finished program -/
+theorem program_inv (c : NContent) :
+    ∃ t, Inv c (t, (genProgram (symOf c)).defs) ((genProgram (symOf c)).build.flatMap Call.refs) := by
+  have h0 : Inv c (takenOf (symOf c), []) [] :=
+    ⟨fun k hk => hk, fun k hk => (by cases hk), fun kd hkd => (by cases hkd), fun r hr => (by cases hr),
+     fun r hr => (by cases hr), fun r hr => (by cases hr), fun _ r hr => (by cases hr)⟩
+  have h1 := genInits_inv (c := c) Call.addVariable (fun _ _ => rfl) (symOf c).variables _ _ h0
+  have h2 := genInits_inv (c := c) Call.addParameter (fun _ _ => rfl) (symOf c).parameters _ _ h1
+  have h3 := genDerived_inv (symOf c).derived _ _ (symOf_comp c).1 h2
+  have h4 := genReactions_inv (symOf c).reactions _ _ (symOf_comp c).2 h3
+  refine ⟨_, h4.mono ?_⟩
+  intro r hr
+  simp only [genProgram, List.flatMap_append, List.mem_append, List.append_nil] at hr ⊢
+  rcases hr with ((h | h) | h) | h
+  · exact Or.inr (Or.inr (Or.inr h))
+  · exact Or.inr (Or.inr (Or.inl h))
+  · exact Or.inr (Or.inl h)
+  · exact Or.inl h
+
+/-- **the definitions generated for initial assignments and computed coefficients are never confused**, for every
+    model: a builder reference whose key is not the `__name__` of a derived quantity's / reaction's function
+    finds the definition generated from its own function object -/
+theorem generated_refs_ok (c : NContent) :
+    ∀ call ∈ (genProgram (symOf c)).build, ∀ r ∈ call.refs, r.key ∉ takenOf (symOf c) →
+      refOk (genProgram (symOf c)).defs r = true := by
+  obtain ⟨t, h⟩ := program_inv c
+  intro call hcall r hr hT
+  exact h.genOk r (List.mem_flatMap.mpr ⟨call, hcall, hr⟩) hT
+
+/-- no two different derived / reaction functions share a `__name__` ⇒ every reference finds its own definition -/
+theorem srcOk_of_input (c : NContent) (hk : keysInjective c = true) : (genProgram (symOf c)).srcOk = true := by
+  obtain ⟨t, h⟩ := program_inv c
   simp only [Program.srcOk, List.all_eq_true]
-  constructor
-  · intro ha kd hkd
-    have := List.all_eq_true.mp ha _ (hfrom kd hkd)
-    simpa using this
-  · intro call hcall r hr
-    -- r is one of the references of the four segments
-    have hmem : r ∈ (genProgram (symOf c)).build.flatMap Call.refs :=
-      List.mem_flatMap.mpr ⟨call, hcall, hr⟩
-    have hsplit : (genProgram (symOf c)).build.flatMap Call.refs
-        = (genInits (takenOf (symOf c)) Call.addVariable (symOf c).variables []).2.flatMap Call.refs
-          ++ (genInits (takenOf (symOf c)) Call.addParameter (symOf c).parameters
-              (genInits (takenOf (symOf c)) Call.addVariable (symOf c).variables []).1).2.flatMap Call.refs
-          ++ (genDerived (symOf c).derived
-              (genInits (takenOf (symOf c)) Call.addParameter (symOf c).parameters
-                (genInits (takenOf (symOf c)) Call.addVariable (symOf c).variables []).1).1).2.flatMap Call.refs
-          ++ (genReactions (takenOf (symOf c)) (symOf c).reactions
-              (genDerived (symOf c).derived
-                (genInits (takenOf (symOf c)) Call.addParameter (symOf c).parameters
-                  (genInits (takenOf (symOf c)) Call.addVariable (symOf c).variables []).1).1).1).2.flatMap Call.refs := by
-      simp [genProgram, List.flatMap_append]
-    rw [hsplit] at hmem
-    have hpresent : r.key ∈ keysOf (genProgram (symOf c)).defs ∧ (r.key, (⟨r.src, r.args⟩ : Use)) ∈ entries c := by
-      have hdefs : (genProgram (symOf c)).defs = (genReactions (takenOf (symOf c)) (symOf c).reactions
-              (genDerived (symOf c).derived
-                (genInits (takenOf (symOf c)) Call.addParameter (symOf c).parameters
-                  (genInits (takenOf (symOf c)) Call.addVariable (symOf c).variables []).1).1).1).1 := by
-        simp [genProgram]
-      rw [hdefs]
-      rcases List.mem_append.mp hmem with h | h
-      · rcases List.mem_append.mp h with h | h
-        · rcases List.mem_append.mp h with h | h
-          · exact ⟨s4.mono _ (s3.mono _ (s2.mono _ (s1.present r h))), s1.refs_in r h⟩
-          · exact ⟨s4.mono _ (s3.mono _ (s2.present r h)), s2.refs_in r h⟩
-        · exact ⟨s4.mono _ (s3.present r h), s3.refs_in r h⟩
-      · exact ⟨s4.present r h, s4.refs_in r h⟩
-    obtain ⟨hkey, hin⟩ := hpresent
-    obtain ⟨d, hd⟩ := lookup_some_of_keys hkey
-    have hde := hfrom (r.key, d) (lookup_some_mem _ _ _ hd)
-    have := hinj _ hde _ hin rfl
-    simp only at this
-    simp [refOk, hd, this]
+  intro call hcall r hr
+  exact h.allOk hk r (List.mem_flatMap.mpr ⟨call, hcall, hr⟩)
+
+/-- no use repeats an argument ⇒ no emitted definition repeats a parameter -/
+theorem defs_nodup_of_input (c : NContent) (ha : argsNoDup c = true) :
+    ((genProgram (symOf c)).defs.all fun kd => !hasDup kd.2.params) = true := by
+  simp only [List.all_eq_true]
+  intro kd hkd
+  have h1 := (symOf_defs_ok c kd hkd).2
+  have := List.all_eq_true.mp ha _ h1
+  simpa using this
+
+/-! ### the names check (`_check_function_names`) -/
+
+theorem compFns_symOf (c : NContent) : compFns (symOf c) = (compEntries c).map fun e => symFnOf c e.2 := by
+  simp [compFns, symOf, compEntries, List.map_map, Function.comp_def]
+
+theorem compEntries_name {c : NContent} {e : String × Use} (h : e ∈ compEntries c) :
+    (c.pyfn e.2.fid).name = e.1 := by
+  simp only [compEntries, List.mem_append, List.mem_map] at h
+  rcases h with ⟨kv, _, rfl⟩ | ⟨kv, _, rfl⟩ <;> rfl
+
+theorem consistent_entry {c : NContent} (hcons : namesConsistent (symOf c) = true) {e : String × Use}
+    (he : e ∈ compEntries c) {g : SymFn} (hr : refFn (compFns (symOf c)) e.1 = some g) : g.src = e.2.fid := by
+  simp only [namesConsistent, List.all_eq_true] at hcons
+  have hm : symFnOf c e.2 ∈ compFns (symOf c) := by
+    rw [compFns_symOf]; exact List.mem_map_of_mem (f := fun e => symFnOf c e.2) he
+  have := hcons _ hm
+  have hn : (symFnOf c e.2).fnName = e.1 := compEntries_name he
+  rw [hn, hr] at this
+  simpa [symFnOf] using this
+
+theorem refFn_some {c : NContent} {e : String × Use} (he : e ∈ compEntries c) (hd : hasDup e.2.args = false) :
+    ∃ g, refFn (compFns (symOf c)) e.1 = some g := by
+  cases hr : refFn (compFns (symOf c)) e.1 with
+  | some g => exact ⟨g, rfl⟩
+  | none =>
+    exfalso
+    have hm : symFnOf c e.2 ∈ compFns (symOf c) := by
+      rw [compFns_symOf]; exact List.mem_map_of_mem (f := fun e => symFnOf c e.2) he
+    have := List.find?_eq_none.mp hr _ hm
+    have hn : (c.pyfn e.2.fid).name = e.1 := compEntries_name he
+    simp [symFnOf, hd] at this
+    exact this hn
+
+/-- no two different derived / reaction functions share a `__name__` ⇒ the names check passes -/
+theorem consistent_of_input (c : NContent) (hk : keysInjective c = true) : namesConsistent (symOf c) = true := by
+  simp only [namesConsistent, List.all_eq_true]
+  intro f hf
+  cases hr : refFn (compFns (symOf c)) f.fnName with
+  | none => rfl
+  | some g =>
+    have hp := List.find?_some hr
+    have hgm := List.mem_of_find?_eq_some hr
+    rw [compFns_symOf] at hf hgm
+    obtain ⟨e1, he1, rfl⟩ := List.mem_map.mp hf
+    obtain ⟨e2, he2, rfl⟩ := List.mem_map.mp hgm
+    have hn1 : (symFnOf c e1.2).fnName = e1.1 := compEntries_name he1
+    have hn2 : (symFnOf c e2.2).fnName = e2.1 := compEntries_name he2
+    have hname : e2.1 = e1.1 := by
+      rw [hn1, hn2] at hp
+      simp only [Bool.and_eq_true, beq_iff_eq] at hp
+      exact hp.1
+    have := List.all_eq_true.mp (List.all_eq_true.mp hk e2 he2) e1 he1
+    simp only [hname, bne_self_eq_false, Bool.false_or, beq_iff_eq] at this
+    simp [symFnOf, this]
+
+/-- the names check passes and no emitted definition repeats a parameter ⇒ every reference finds the definition of
+    its own function object -/
+theorem srcOk_of_consistent (c : NContent) (hcons : namesConsistent (symOf c) = true)
+    (hnd : ((genProgram (symOf c)).defs.all fun kd => !hasDup kd.2.params) = true) :
+    (genProgram (symOf c)).srcOk = true := by
+  obtain ⟨t, h⟩ := program_inv c
+  simp only [Program.srcOk, List.all_eq_true]
+  intro call hcall r hr
+  have hmem : r ∈ (genProgram (symOf c)).build.flatMap Call.refs := List.mem_flatMap.mpr ⟨call, hcall, hr⟩
+  by_cases hT : r.key ∈ takenOf (symOf c)
+  · obtain ⟨d, hd⟩ := lookup_some_of_keys (h.present r hmem)
+    have hdm := lookup_some_mem _ _ _ hd
+    have hde := h.defsComp _ hdm hT
+    have hre := h.refsComp r hmem hT
+    have hdn : hasDup d.params = false := by
+      have := List.all_eq_true.mp hnd _ hdm
+      simpa using this
+    obtain ⟨g, hg⟩ := refFn_some hde hdn
+    have h1 := consistent_entry hcons hde hg
+    have h2 := consistent_entry hcons hre hg
+    simp only at h1 h2
+    simp [refOk, hd, ← h1, h2]
+  · exact h.genOk r hmem hT
 
 /-- **input-level sufficient condition** for the hypothesis of the round-trip theorem -/
 theorem refsResolve_of_input (c : NContent) (hk : keysInjective c = true) (ha : argsNoDup c = true) :
     refsResolve c = true := by
   unfold refsResolve
   rw [toSymbolicRepr_nil]
-  have h := input_facts c hk
-  have h2 : ((genProgram (symOf c)).build.all fun call => call.refs.all (refOk (genProgram (symOf c)).defs)) = true := h.2
+  have h2 : ((genProgram (symOf c)).build.all fun call => call.refs.all (refOk (genProgram (symOf c)).defs)) = true :=
+    srcOk_of_input c hk
   simp only [Program.refsOk, Bool.and_eq_true]
-  exact ⟨h.1 ha, h2⟩
+  exact ⟨consistent_of_input c hk, defs_nodup_of_input c ha, h2⟩
 
-/-- … and for the weaker hypothesis that only excludes F-C11-1 -/
+/-- … and for the weaker hypothesis that allows repeated arguments -/
 theorem refsSrcOk_of_input (c : NContent) (hk : keysInjective c = true) : refsSrcOk c = true := by
   unfold refsSrcOk
   rw [toSymbolicRepr_nil]
-  exact (input_facts c hk).2
+  simp only [Bool.and_eq_true]
+  exact ⟨consistent_of_input c hk, srcOk_of_input c hk⟩
 
-/-- **round trip, repeated arguments allowed**: the model is rebuilt, or generation raises ValueError -/
-theorem roundTrip_or_raises (c : NContent) (hc : Canonical c) (h : refsSrcOk c = true) :
+/-- **round trip, every model**: the model is rebuilt, or generation raises ValueError (two different functions with
+    one name, or a repeated argument) -/
+theorem roundTrip_or_raises_all (c : NContent) (hc : Canonical c) :
     roundTrip [] c = .ok c.toContent ∨ ∃ m, roundTrip [] c = .error (.valueError m) := by
-  cases hnd : ((genProgram (symOf c)).defs.all fun kd => !hasDup kd.2.params) with
-  | true =>
-    left
-    refine roundTrip_ok c hc ?_
-    unfold refsSrcOk at h
-    unfold refsResolve
-    rw [toSymbolicRepr_nil] at h ⊢
-    simp only [Program.refsOk, Bool.and_eq_true]
-    exact ⟨hnd, h⟩
+  cases hcons : namesConsistent (symOf c) with
   | false =>
     right
-    refine ⟨"an argument is repeated", ?_⟩
+    refine ⟨"two different functions have the same name", ?_⟩
     unfold roundTrip
     rw [toSymbolicRepr_nil]
-    simp [bind, Except.bind, genMxlpy, hnd]
+    simp [bind, Except.bind, genMxlpy, hcons]
+  | true =>
+    cases hnd : ((genProgram (symOf c)).defs.all fun kd => !hasDup kd.2.params) with
+    | true =>
+      left
+      refine roundTrip_ok c hc ?_
+      unfold refsResolve
+      rw [toSymbolicRepr_nil]
+      simp only [Program.refsOk, Bool.and_eq_true]
+      exact ⟨hcons, hnd, srcOk_of_consistent c hcons hnd⟩
+    | false =>
+      right
+      refine ⟨"an argument is repeated", ?_⟩
+      unfold roundTrip
+      rw [toSymbolicRepr_nil]
+      simp [bind, Except.bind, genMxlpy, hcons, hnd]
+
+/-- (kept for the older statement: the hypothesis is no longer needed) -/
+theorem roundTrip_or_raises (c : NContent) (hc : Canonical c) (_h : refsSrcOk c = true) :
+    roundTrip [] c = .ok c.toContent ∨ ∃ m, roundTrip [] c = .error (.valueError m) :=
+  roundTrip_or_raises_all c hc
 
 end Mxl.C11
